@@ -128,6 +128,6 @@ def units(tier):
     nmax = 10 if tier == "quick" else 18
     us = []
     for name in mc.ROUTINES:
-        ex = (500, 6000) if name == "community_louvain" else (250, 4000)
+        ex = (1500, 8000) if name == "community_louvain" else (700, 5000)
         us.append(Unit(name, check, strategy=(lambda nm=name: mc.cases(nm, nmax)), examples=ex, shards=(2, 8)))
     return us
